@@ -203,9 +203,45 @@ cmd_trunc(const json_t *arg, json_t *stk, json_t *cur, json_t *lst)
 }
 
 static bool
+contains(json_t *val, const json_t *dst);
+
+/* Is dst reachable from an item (array) or a member value (object) of val? */
+static bool
+items_contain(json_t *val, const json_t *dst)
+{
+    const char *key = NULL;
+    json_t *v = NULL;
+    size_t i = 0;
+
+    json_array_foreach(val, i, v) {
+        if (contains(v, dst))
+            return true;
+    }
+
+    json_object_foreach(val, key, v) {
+        if (contains(v, dst))
+            return true;
+    }
+
+    return false;
+}
+
+/* Is dst reachable from val? Storing val inside dst would then make a value
+ * that contains itself, which can be neither printed nor compared. */
+static bool
+contains(json_t *val, const json_t *dst)
+{
+    return val == dst || items_contain(val, dst);
+}
+
+static bool
 cmd_insert(const json_t *arg, json_t *stk, json_t *cur, json_t *lst)
 {
     size_t i = json_integer_value(arg);
+
+    if (contains(cur, lst))
+        return false;
+
     return json_array_insert(lst, i, cur) >= 0;
 }
 
@@ -213,10 +249,19 @@ static bool
 cmd_append(const json_t *arg, json_t *stk, json_t *cur, json_t *lst)
 {
     if (json_is_array(lst))
-        return json_array_append(lst, cur) >= 0;
+        return !contains(cur, lst) && json_array_append(lst, cur) >= 0;
 
-    if (json_is_object(lst))
+    if (json_is_object(lst)) {
+        const char *key = NULL;
+        json_t *v = NULL;
+
+        json_object_foreach(cur, key, v) {
+            if (!json_object_get(lst, key) && contains(v, lst))
+                return false;
+        }
+
         return json_object_update_missing(lst, cur) >= 0;
+    }
 
     return false;
 }
@@ -224,6 +269,9 @@ cmd_append(const json_t *arg, json_t *stk, json_t *cur, json_t *lst)
 static bool
 cmd_extend(const json_t *arg, json_t *stk, json_t *cur, json_t *lst)
 {
+    if (items_contain(cur, lst))
+        return false;
+
     if (json_is_array(lst))
         return json_array_extend(lst, cur) >= 0;
 
@@ -310,6 +358,9 @@ static bool
 cmd_set(const json_t *arg, json_t *stk, json_t *cur, json_t *lst)
 {
     const char *s = json_string_value(arg);
+
+    if (contains(cur, lst))
+        return false;
 
     if (json_is_array(lst)) {
         size_t indx;
